@@ -19,7 +19,7 @@ navis.set_loggers('ERROR')
 
 
 # streams of later properties, added here once their driver commands are linked into navisdrv
-EXTRA_STREAMS = []
+EXTRA_STREAMS = ['c17', 'c11']
 
 
 def optional(name):
@@ -104,6 +104,11 @@ def run(ctx):
         if m is not None and hasattr(m, 'gen_cases') and hasattr(m, 'RUNNERS'):
             mods.append((nm, m, 15, 200))
     ctx.extra['streams'] = [m[0] for m in mods]
+    # defects recorded under the streams' home properties are known here too (same call sites, same signatures)
+    from .common import load_known
+    home = {m[0].upper() for m in mods}
+    have = {k['signature'] for k in ctx.known}
+    ctx.known += [k for k in load_known() if k.get('property') in home and k.get('status') == 'open' and k['signature'] not in have]
     for be in available():
         with backend(be):
             for nm, mod, q, t in mods:
